@@ -40,6 +40,17 @@ type World struct {
 	PureMethods map[string]bool // "<pkgpath>.<Interface>.<Method>": interface methods whose implementations are all pure
 	AnalysisImmutable bool
 	ImmutabilityNotes []string
+	// fields of package-level `var g = &T{f: <literal>}` objects that no statement of the repository ever
+	// assigns (and g itself is never reassigned): their value is the initialiser's in every state
+	ConstPointees []ConstPointee
+}
+
+type ConstPointee struct {
+	Global *types.Var
+	Struct types.Type // T
+	Field  string
+	Value  string // SMT literal: true / false / integer
+	Pos    string
 }
 
 type FuncInfo struct {
@@ -172,6 +183,7 @@ func loadWorld() (*World, error) {
 		}
 	}
 	w.checkAnalysisImmutability()
+	w.findConstPointees()
 	ex, err := loadExternSpecs(filepath.Join(verifDir, "contracts", "extern"))
 	if err != nil {
 		return nil, err
@@ -216,6 +228,7 @@ type ExternSpec struct {
 	Pure     bool
 	NoReturn bool
 	Once     bool // result is one fixed value per verified function (function is called at most once: checked)
+	Hof      bool // higher-order: the only heap effects are those of its function arguments
 	Requires []*Clause
 	Ensures  []*Clause
 	Modifies []string
@@ -301,6 +314,8 @@ func loadExternSpecs(dir string) (*ExternSpecs, error) {
 				cur.NoReturn = true
 			case "once":
 				cur.Once = true
+			case "hof":
+				cur.Hof = true
 			case "modifies":
 				for _, m := range strings.Split(rest, ",") {
 					cur.Modifies = append(cur.Modifies, strings.TrimSpace(m))
@@ -358,6 +373,146 @@ func loadExternSpecs(dir string) (*ExternSpecs, error) {
 		}
 	}
 	return ex, nil
+}
+
+// findConstPointees: see World.ConstPointees. Conservative: any assignment to a field of that name on that
+// struct type anywhere (x.f = , x.f++, &x.f, *p = for p *T), or any assignment to the global, disqualifies.
+func (w *World) findConstPointees() {
+	type key struct {
+		t string
+		f string
+	}
+	assignedField := map[key]bool{}
+	wholeStore := map[string]bool{}
+	assignedGlobal := map[types.Object]bool{}
+	for _, p := range w.Pkgs {
+		info := p.TypesInfo
+		mark := func(l ast.Expr) {
+			switch y := ast.Unparen(l).(type) {
+			case *ast.SelectorExpr:
+				if sel := info.Selections[y]; sel != nil && sel.Kind() == types.FieldVal {
+					t := sel.Recv()
+					if pt, ok := types.Unalias(t).Underlying().(*types.Pointer); ok {
+						t = pt.Elem()
+					}
+					assignedField[key{types.TypeString(t, nil), y.Sel.Name}] = true
+				}
+			case *ast.StarExpr:
+				if t := info.TypeOf(y); t != nil {
+					wholeStore[types.TypeString(t, nil)] = true
+				}
+			case *ast.Ident:
+				if o := info.ObjectOf(y); o != nil {
+					assignedGlobal[o] = true
+				}
+			}
+		}
+		for _, f := range p.Syntax {
+			ast.Inspect(f, func(n ast.Node) bool {
+				switch x := n.(type) {
+				case *ast.AssignStmt:
+					if x.Tok != token.DEFINE {
+						for _, l := range x.Lhs {
+							mark(l)
+						}
+					}
+				case *ast.IncDecStmt:
+					mark(x.X)
+				case *ast.UnaryExpr:
+					if x.Op == token.AND {
+						if _, isLit := x.X.(*ast.CompositeLit); !isLit {
+							mark(x.X)
+						}
+					}
+				}
+				return true
+			})
+		}
+	}
+	for _, p := range w.Pkgs {
+		info := p.TypesInfo
+		for _, f := range p.Syntax {
+			for _, d := range f.Decls {
+				gd, ok := d.(*ast.GenDecl)
+				if !ok || gd.Tok != token.VAR {
+					continue
+				}
+				for _, sp := range gd.Specs {
+					vs := sp.(*ast.ValueSpec)
+					if len(vs.Names) != len(vs.Values) {
+						continue
+					}
+					for i, nm := range vs.Names {
+						g, _ := info.Defs[nm].(*types.Var)
+						u, ok := vs.Values[i].(*ast.UnaryExpr)
+						if g == nil || !ok || u.Op != token.AND || assignedGlobal[g] {
+							continue
+						}
+						cl, ok := u.X.(*ast.CompositeLit)
+						if !ok {
+							continue
+						}
+						T := info.TypeOf(cl)
+						stt, ok := T.Underlying().(*types.Struct)
+						if !ok || wholeStore[types.TypeString(T, nil)] {
+							continue
+						}
+						given := map[string]ast.Expr{}
+						for _, e := range cl.Elts {
+							if kv, ok := e.(*ast.KeyValueExpr); ok {
+								if id, ok := kv.Key.(*ast.Ident); ok {
+									given[id.Name] = kv.Value
+								}
+							} else {
+								given = nil // positional literal: not handled
+								break
+							}
+						}
+						if given == nil && len(cl.Elts) > 0 {
+							continue
+						}
+						for j := 0; j < stt.NumFields(); j++ {
+							fld := stt.Field(j)
+							if assignedField[key{types.TypeString(T, nil), fld.Name()}] {
+								continue
+							}
+							b, ok := fld.Type().Underlying().(*types.Basic)
+							if !ok {
+								continue
+							}
+							val := ""
+							if e, has := given[fld.Name()]; has {
+								tv := info.Types[e]
+								if tv.Value == nil {
+									continue
+								}
+								switch {
+								case b.Info()&types.IsBoolean != 0:
+									val = tv.Value.String()
+								case b.Info()&types.IsInteger != 0:
+									val = tv.Value.ExactString()
+								}
+							} else {
+								switch {
+								case b.Info()&types.IsBoolean != 0:
+									val = "false"
+								case b.Info()&types.IsInteger != 0:
+									val = "0"
+								}
+							}
+							if val == "" {
+								continue
+							}
+							if strings.HasPrefix(val, "-") {
+								val = "(- " + val[1:] + ")"
+							}
+							w.ConstPointees = append(w.ConstPointees, ConstPointee{Global: g, Struct: T, Field: fld.Name(), Value: val, Pos: w.pos(nm.Pos())})
+						}
+					}
+				}
+			}
+		}
+	}
 }
 
 // checkAnalysisImmutability scans the non-analysis packages for stores into analysis nodes.
